@@ -81,21 +81,25 @@ Proof.
   destruct sq; exact (xw_escape_replace _ _ s).
 Qed.
 Definition amp_rep : bytes := [38; 97; 109; 112; 59].
+Definition gt_rep : bytes := [38; 103; 116; 59].
 Definition lt_rep : bytes := [38; 108; 116; 59].
-Lemma text_escape_eq s : escape_text s = replace_all 60 lt_rep (replace_all 38 amp_rep s).
+(* writer.rs (since 94b8b4d): `&` -> `&amp;`, then `>` -> `&gt;`; xmlwriter: `<` -> `&lt;` *)
+Lemma text_escape_eq s : escape_text s = replace_all 60 lt_rep (replace_all 62 gt_rep (replace_all 38 amp_rep s)).
 Proof.
-  unfold escape_text. change (pre_replace "text" s) with (replace_all 38 amp_rep s).
+  unfold escape_text. change (pre_replace "text" s) with (replace_all 62 gt_rep (replace_all 38 amp_rep s)).
   exact (xw_escape_replace 60 lt_rep _).
 Qed.
 
-Definition enc_text (b : N) : bytes := if b =? 38 then amp_rep else if b =? 60 then lt_rep else [b].
+Definition enc_text (b : N) : bytes :=
+  if b =? 38 then amp_rep else if b =? 62 then gt_rep else if b =? 60 then lt_rep else [b].
 Lemma text_escape_map s : escape_text s = flat_map enc_text s.
 Proof.
   rewrite text_escape_eq. induction s as [|b r IH]; [reflexivity|].
   change (replace_all 38 amp_rep (b :: r)) with ((if b =? 38 then amp_rep else [b]) ++ replace_all 38 amp_rep r).
-  rewrite replace_all_app, IH. simpl flat_map. f_equal.
+  rewrite !replace_all_app, IH. simpl flat_map. f_equal.
   unfold enc_text. destruct (b =? 38) eqn:E; [reflexivity|].
-  unfold replace_all. simpl. destruct (b =? 60); reflexivity.
+  unfold replace_all. simpl. destruct (b =? 62) eqn:E2; [reflexivity|]. simpl. rewrite app_nil_r.
+  destruct (b =? 60); reflexivity.
 Qed.
 
 (* ---------------------------------------------------------------- reading back *)
@@ -147,24 +151,48 @@ Lemma good_enc_text b : good_enc enc_text b.
 Proof.
   unfold good_enc, enc_text. destruct (b =? 38) eqn:E.
   - apply N.eqb_eq in E. subst. right. exists [97; 109; 112; 59]. repeat split.
-    + simpl. intros H. repeat (destruct H as [H|H]; [discriminate|]). exact H.
-  - destruct (b =? 60) eqn:E2.
-    + apply N.eqb_eq in E2. subst. right. exists [108; 116; 59]. repeat split.
+    simpl. intros H. repeat (destruct H as [H|H]; [discriminate|]). exact H.
+  - destruct (b =? 62) eqn:E3.
+    + apply N.eqb_eq in E3. subst. right. exists [103; 116; 59]. repeat split.
       simpl. intros H. repeat (destruct H as [H|H]; [discriminate|]). exact H.
-    + left. split; auto. apply N.eqb_neq. exact E.
+    + destruct (b =? 60) eqn:E2.
+      * apply N.eqb_eq in E2. subst. right. exists [108; 116; 59]. repeat split.
+        simpl. intros H. repeat (destruct H as [H|H]; [discriminate|]). exact H.
+      * left. split; auto. apply N.eqb_neq. exact E.
 Qed.
 
 Lemma text_roundtrip s : unescape (escape_text s) = s.
 Proof. rewrite text_escape_map. apply unescape_map. apply Forall_forall. intros b _. apply good_enc_text. Qed.
 
+Lemma enc_text_no b c : (c = 60 \/ c = 62) -> ~ In c (enc_text b).
+Proof.
+  intros Hc. unfold enc_text.
+  destruct (b =? 38); [destruct Hc; subst; simpl; intros H; repeat (destruct H as [H|H]; [discriminate|]); exact H|].
+  destruct (b =? 62) eqn:E2; [destruct Hc; subst; simpl; intros H; repeat (destruct H as [H|H]; [discriminate|]); exact H|].
+  destruct (b =? 60) eqn:E; [destruct Hc; subst; simpl; intros H; repeat (destruct H as [H|H]; [discriminate|]); exact H|].
+  simpl. intros [H|[]]. subst b. destruct Hc; subst; rewrite N.eqb_refl in *; discriminate.
+Qed.
+
+(* `]]>` needs a `>` *)
+Lemma cdata_end_needs_gt s : has_cdata_end s = true -> In 62 s.
+Proof.
+  induction s as [|a s IH]; [discriminate|]. cbn [has_cdata_end]. intro H. apply orb_true_iff in H. destruct H as [H|H].
+  - destruct s as [|b [|c s]]; cbn [starts_with] in H; try (rewrite ?andb_false_r in H; discriminate).
+    apply andb_true_iff in H. destruct H as [_ H]. apply andb_true_iff in H. destruct H as [_ H].
+    apply andb_true_iff in H. destruct H as [H _]. apply N.eqb_eq in H. subst c. right. right. left. reflexivity.
+  - right. apply IH. exact H.
+Qed.
+
+(* full strength, ALL strings: no raw `<`, no raw `>` (hence no `]]>`), every `&` starts a predefined entity *)
+Lemma text_no_gt s : has_byte 62 (escape_text s) = false.
+Proof. apply has_byte_false. rewrite text_escape_map. apply not_in_flat_map. intros b _. apply enc_text_no. auto. Qed.
 Lemma text_wf s : char_data_wf (escape_text s) = true.
 Proof.
-  unfold char_data_wf. rewrite text_escape_map. apply andb_true_intro. split.
-  - apply negb_true_iff, has_byte_false. apply not_in_flat_map. intros b _. unfold enc_text.
-    destruct (b =? 38); [simpl; intros H; repeat (destruct H as [H|H]; [discriminate|]); exact H|].
-    destruct (b =? 60) eqn:E; [simpl; intros H; repeat (destruct H as [H|H]; [discriminate|]); exact H|].
-    simpl. intros [H|[]]. subst. rewrite N.eqb_refl in E. discriminate.
-  - apply amp_ok_map. apply Forall_forall. intros b _. apply good_enc_text.
+  unfold char_data_wf. apply andb_true_intro. split; [apply andb_true_intro; split|].
+  - apply negb_true_iff, has_byte_false. rewrite text_escape_map. apply not_in_flat_map. intros b _. apply enc_text_no. auto.
+  - rewrite text_escape_map. apply amp_ok_map. apply Forall_forall. intros b _. apply good_enc_text.
+  - apply negb_true_iff. destruct (has_cdata_end (escape_text s)) eqn:E; [|reflexivity].
+    apply cdata_end_needs_gt in E. pose proof (text_no_gt s) as G. apply has_byte_false in G. contradiction.
 Qed.
 
 (* ---------------------------------------------------------------- attributes *)
@@ -217,62 +245,4 @@ Proof.
   - exists [97; 60; 98]. reflexivity.                          (* a<b  is written  a<b *)
   - exists [97; 38; 97; 109; 112; 59; 98]. split; [reflexivity|].   (* the id `a&amp;b` is written as is and read back as `a&b` *)
     vm_compute. discriminate.
-Qed.
-
-(* ---------------------------------------------------------------- `]]>` in text (candidate defect: `>` is never escaped) *)
-Lemma text_cdata_end_refuted : exists s, has_cdata_end s = true /\ escape_text s = s.
-Proof. exists [93; 93; 62]. split; reflexivity. Qed.
-
-Lemma enc_text_head b : b <> 38 -> b <> 60 -> enc_text b = [b].
-Proof.
-  intros H1 H2. unfold enc_text. destruct (b =? 38) eqn:E1; [apply N.eqb_eq in E1; contradiction|].
-  destruct (b =? 60) eqn:E2; [apply N.eqb_eq in E2; contradiction|]. reflexivity.
-Qed.
-Lemma enc_text_cases b :
-  (b = 38 /\ enc_text b = amp_rep) \/ (b = 60 /\ enc_text b = lt_rep) \/ (b <> 38 /\ b <> 60 /\ enc_text b = [b]).
-Proof.
-  unfold enc_text. destruct (b =? 38) eqn:E1; [apply N.eqb_eq in E1; auto|].
-  destruct (b =? 60) eqn:E2; [apply N.eqb_eq in E2; auto|].
-  right. right. repeat split; auto; apply N.eqb_neq; assumption.
-Qed.
-
-(* the first three bytes of the output are `]]>` only if the first three bytes of the input are *)
-Lemma cdata_head s : starts_with [93; 93; 62] (flat_map enc_text s) = starts_with [93; 93; 62] s.
-Proof.
-  destruct s as [|a s]; [reflexivity|]. simpl flat_map.
-  destruct (enc_text_cases a) as [[-> ->]|[[-> ->]|(_ & _ & ->)]]; [reflexivity|reflexivity|].
-  cbn [app starts_with]. destruct (93 =? a); [|reflexivity]. cbn [andb].
-  destruct s as [|b s]; [reflexivity|]. simpl flat_map.
-  destruct (enc_text_cases b) as [[-> ->]|[[-> ->]|(_ & _ & ->)]]; [reflexivity|reflexivity|].
-  cbn [app starts_with]. destruct (93 =? b); [|reflexivity]. cbn [andb].
-  destruct s as [|c s]; [reflexivity|]. simpl flat_map.
-  destruct (enc_text_cases c) as [[-> ->]|[[-> ->]|(_ & _ & ->)]]; reflexivity.
-Qed.
-
-Lemma has_cdata_end_skip l r :
-  (forall k, (k < List.length l)%nat -> starts_with [93; 93; 62] (skipn k l ++ r) = false) ->
-  has_cdata_end (l ++ r) = has_cdata_end r.
-Proof.
-  induction l as [|x l IH]; intro H; [reflexivity|].
-  change ((x :: l) ++ r) with (x :: (l ++ r)). cbn [has_cdata_end].
-  assert (H0 : starts_with [93; 93; 62] (skipn 0 (x :: l) ++ r) = false) by (apply H; simpl; lia).
-  change (skipn 0 (x :: l) ++ r) with (x :: l ++ r) in H0. rewrite H0. cbn [orb].
-  apply IH. intros k Hk. apply (H (S k)). simpl. lia.
-Qed.
-
-(* guarded: a span text without `]]>` is written without `]]>` *)
-Lemma text_cdata_end_guarded s : has_cdata_end s = false -> has_cdata_end (escape_text s) = false.
-Proof.
-  rewrite text_escape_map. induction s as [|a s IH]; [reflexivity|].
-  cbn [has_cdata_end]. intro H. apply orb_false_iff in H. destruct H as [H1 H2]. specialize (IH H2).
-  change (flat_map enc_text (a :: s)) with (enc_text a ++ flat_map enc_text s).
-  destruct (enc_text_cases a) as [[-> ->]|[[-> ->]|(_ & _ & E)]].
-  - rewrite has_cdata_end_skip; [exact IH|]. intros k Hk. simpl in Hk.
-    do 5 (destruct k as [|k]; [reflexivity|]). lia.
-  - rewrite has_cdata_end_skip; [exact IH|]. intros k Hk. simpl in Hk.
-    do 4 (destruct k as [|k]; [reflexivity|]). lia.
-  - rewrite E. change ([a] ++ flat_map enc_text s) with (a :: flat_map enc_text s). cbn [has_cdata_end].
-    rewrite IH, orb_false_r.
-    change (a :: flat_map enc_text s) with ([a] ++ flat_map enc_text s). rewrite <- E.
-    change (enc_text a ++ flat_map enc_text s) with (flat_map enc_text (a :: s)). rewrite cdata_head. exact H1.
 Qed.
